@@ -13,7 +13,9 @@ import (
 	"sync/atomic"
 
 	"github.com/protobom/protobom/pkg/formats"
+	"github.com/protobom/protobom/pkg/native"
 	"github.com/protobom/protobom/pkg/sbom"
+	"github.com/protobom/protobom/pkg/writer"
 	"verifharness/internal/core"
 	"verifharness/internal/gen"
 	"verifharness/internal/jsonx"
@@ -196,7 +198,7 @@ func declOf(f formats.Format) (typ, ver, enc string) {
 func init() {
 	core.Register(&core.Prop{
 		ID: "C06", Level: "exploration",
-		Rule: "k mod 3 == 0: a generated document (SPDX class -> SPDX 2.3; CycloneDX trees -> 1.3, 1.4, 1.5 in turn) is written at indentation {0,1,2,4,8,17}[k] and detection is run on the output and on 8 re-encodings (white space, member shuffles, escape modes, compact): it must return exactly that format, " +
+		Rule: "writer outputs also come from ONE writer instance asked for SPDX 2.3 and CycloneDX 1.3/1.4/1.5 in a shuffled order (each output must be detected as what that call asked for); k mod 3 == 0: a generated document (SPDX class -> SPDX 2.3; CycloneDX trees -> 1.3, 1.4, 1.5 in turn) is written at indentation {0,1,2,4,8,17}[k] and detection is run on the output and on 8 re-encodings (white space, member shuffles, escape modes, compact): it must return exactly that format, " +
 			"the format's Type/Version/Encoding accessors must agree with the declaration, the stream offset must be 0 afterwards (instrumented ReadSeeker) and ParseStream must equal ParseStreamWithOptions(F); " +
 			"k mod 3 == 1: negative and near-miss inputs (declaration only nested / in an array / in a string, versions 1.6, 1.30, SPDX-2.1, SPDX-3.0, spdx-2.3, tag-value files whose SPDXVersion line carries an unsupported version while another line quotes a supported one, inputs without any marker) must return an error; " +
 			"k mod 3 == 2: random bytes, token soups and mutated declarations for totality and rewind only. A deliberately partial reference detector decides only the clear cases. Re-encodings put random white space before and after the top-level value as well as between tokens; every second call of a process uses one shared Sniffer value. distinct = hash of the sniffed bytes; non-trivial = decided case.",
@@ -322,6 +324,30 @@ func c06Case(c *core.C) {
 		if why := graphEquivalent(da, de); why != "" {
 			c.Violatef("auto-vs-explicit", nil, "ParseStream and ParseStreamWithOptions(%s) disagree on the writer's output: %s", f, why)
 			return
+		}
+		// one writer instance asked for several formats in a row (per-call option sets; the instance itself is built
+		// for the first format of the sequence): every output must be in the format that call asked for
+		{
+			seq := []formats.Format{formats.SPDX23JSON, formats.CDX13JSON, formats.CDX14JSON, formats.CDX15JSON, f}
+			r.Shuffle(len(seq), func(i, j int) { seq[i], seq[j] = seq[j], seq[i] })
+			w := writer.New(writer.WithFormat(seq[0]))
+			for i, g := range seq {
+				var buf bytes.Buffer
+				var werr error
+				if i == 0 {
+					werr = w.WriteStream(doc, nopWC{&buf})
+				} else {
+					werr = w.WriteStreamWithOptions(doc, nopWC{&buf}, &writer.Options{Format: g, RenderOptions: &native.RenderOptions{Indent: indent}, SerializeOptions: &native.SerializeOptions{}})
+				}
+				if werr != nil {
+					c.Cover("one-writer-several-formats:write-error(not judged)")
+					continue
+				}
+				c.Cover("one-writer-several-formats")
+				if !c06Judge(c, buf.Bytes(), fmt.Sprintf("output %d (%s) of one writer asked for %v in turn", i, g, seq), g) {
+					return
+				}
+			}
 		}
 		tree, err := jsonx.Parse(out)
 		if err != nil {
